@@ -235,6 +235,15 @@ def copy_override_grid():
                                                                     ("let", "n", B(".", SYM("d"), SYM("f"))), ("let", "u", use)]
                 yield ("doc", "copyover-inline:%s->%s:%d" % (on, nn, i)), [("let", "base", T(("f", old), ("g", one))),
                                                                            ("let", "n", B(".", ("copy", SYM("base"), [("f", new)]), SYM("f"))), ("let", "u", use)]
+                if nn != "self-extended":
+                    # the copy is one arm of a select whose other arm (or default) is the base itself
+                    for key in ("prod", "dev"):
+                        if key == "dev" and on != "tuple-a":
+                            continue        # the base is chosen: only uses that the base supports too
+                        yield ("doc", "copyover-select:%s->%s:%d:%s" % (on, nn, i, key)), [
+                            ("let", "base", T(("f", old), ("g", one))), ("let", "mode", S(key)),
+                            ("let", "cfg", ("select", SYM("mode"), SYM("base"), [("prod", ("copy", SYM("base"), [("f", new)]))])),
+                            ("let", "n", B(".", SYM("cfg"), SYM("f"))), ("let", "u", use if key == "prod" else B("+", B(".", SYM("n"), SYM("a")), one))]
 
 
 def select_arm_grid():
@@ -328,6 +337,9 @@ def callee_name_grid():
             ("function-in-tuple", T(("g", ("func", [], P))), ("call", B(".", SYM("r"), SYM("g")), [])),
             ("function-in-list", L(("func", [], P)), ("call", B(".", ("group", B(".", SYM("r"), I(0))), SYM("zz")), [])) if False else
             ("function-returning-tuple", ("func", [], T(("v", P))), B(".", ("group", ("call", SYM("r"), [])), SYM("v"))),
+            # the returned function's own parameter carries the outer parameter's name and is given a value of another type
+            ("returned-function-same-parameter-name-other-type", ("func", ["p"], T(("v", P))), B(".", B(".", ("group", ("call", SYM("r"), [T(("name", one))])), SYM("v")), SYM("name"))),
+            ("returned-function-same-parameter-name-field", ("func", ["p"], B(".", P, SYM("n"))), ("call", SYM("r"), [T(("n", one))])),
             ("returned-module", ("module", [("v", P)], B(".", SYM("mod"), SYM("v")), [("let", "x", one)]), ("copy", SYM("r"), [])),
             ("returned-module-implicit-result", ("module", [("v", P)], None, [("let", "w", B(".", SYM("mod"), SYM("v")))]), B(".", ("group", ("copy", SYM("r"), [])), SYM("w")))]
     for outer_n, outer, after in (("str", S("str"), B("+", P, S("x"))), ("list", L(S("a")), B("+", P, L(S("b")))), ("tuple", T(("a", one)), B(".", P, SYM("a")))):
